@@ -47,6 +47,28 @@ func extractArchiver() {
 				}
 			}
 			s.boolean("retryCounterOnlyInHeader", !touched)
+			// the guards that decide between "try again" and "give up": `retry < MaxRetry`, all with one operator
+			var inner cmp
+			nInner, same := 0, true
+			for _, c := range cmps(fs.Body) {
+				if c.L == "retry" && strings.Contains(c.R, "MaxRetry") {
+					if nInner > 0 && c.Op != inner.Op {
+						same = false
+					}
+					inner = c
+					nInner++
+				}
+			}
+			s.op("retryInnerOp", inner, nInner == 2 && same)
+			// exactly one request per iteration, sent by the loop body itself (no helper that could loop on its own)
+			nDo := 0
+			for _, c := range calls(fs.Body) {
+				if src(c.Fun) == "client.Do" {
+					nDo++
+				}
+			}
+			bodySrc := strings.ReplaceAll(src(fs.Body), " ", "")
+			s.boolean("oneRequestPerIteration", nDo == 1 && strings.Contains(bodySrc, "resp,err=client.Do(req)") && !strings.Contains(bodySrc, "for"))
 		}
 	}
 	s.op("retryLoopOp", loopOp, loopOk)
